@@ -124,8 +124,9 @@ func tableContent(g *ssa.Global) *ival {
 }
 
 type rangeCtx struct {
-	memo map[ssa.Value]*ival
-	busy map[ssa.Value]bool
+	memo   map[ssa.Value]*ival
+	busy   map[ssa.Value]bool
+	busyFn map[*ssa.Function]bool
 }
 
 func bmin(a, b *big.Int) *big.Int {
@@ -333,6 +334,11 @@ func (rc *rangeCtx) compute(v ssa.Value) *ival {
 		return &ival{lo: k, hi: k}
 	}
 	switch x := v.(type) {
+	case *ssa.Parameter:
+		// a parameter of an unexported module function takes the values its call sites pass
+		if iv := rc.paramFromCallers(x); iv != nil {
+			return iv
+		}
 	case *ssa.Convert:
 		// the operand is refined by the facts that dominate the conversion
 		src := rc.eval(x.X, x.Block())
@@ -549,6 +555,38 @@ func (rc *rangeCtx) compute(v ssa.Value) *ival {
 				full := rc.full(x.Type())
 				return &ival{lo: big.NewInt(0), hi: full.hi}
 			}
+			// a module function with one integer result: the join of what its returns can yield,
+			// its parameters taken as unknown (e.g. `func (t T) log() int { return int(logTable[t-1]) }`)
+			if len(f.Blocks) > 0 && f.Pkg != nil && isModPath(f.Pkg.Pkg.Path()) && f.Signature.Results().Len() == 1 && !rc.busyFn[f] {
+				if _, _, isInt := typeRange(x.Type()); isInt {
+					if rc.busyFn == nil {
+						rc.busyFn = map[*ssa.Function]bool{}
+					}
+					rc.busyFn[f] = true
+					var res *ival
+					okAll := true
+					for _, b := range f.Blocks {
+						ret, isRet := b.Instrs[len(b.Instrs)-1].(*ssa.Return)
+						if !isRet {
+							continue
+						}
+						iv := rc.eval(ret.Results[0], b)
+						if iv == nil || iv.wrapped != "" {
+							okAll = false
+							break
+						}
+						if res == nil {
+							res = &ival{lo: iv.lo, hi: iv.hi}
+						} else {
+							res = &ival{lo: bmin(res.lo, iv.lo), hi: bmax(res.hi, iv.hi)}
+						}
+					}
+					delete(rc.busyFn, f)
+					if okAll && res != nil {
+						return res
+					}
+				}
+			}
 		}
 	case *ssa.Extract:
 		// range-loop key over an array / integer
@@ -557,6 +595,70 @@ func (rc *rangeCtx) compute(v ssa.Value) *ival {
 		}
 	}
 	return rc.full(v.Type())
+}
+
+// paramFromCallers: the join of the argument intervals over all static call sites of an
+// unexported function of the module (refined by the facts at each call site). nil if the
+// function is exported, is used as a value, has no call site, or an argument is unknown.
+func (rc *rangeCtx) paramFromCallers(p *ssa.Parameter) *ival {
+	f := p.Parent()
+	if f == nil || rangeWorld == nil || f.Pkg == nil || !isModPath(f.Pkg.Pkg.Path()) || f.Parent() != nil {
+		return nil
+	}
+	if f.Object() == nil || f.Object().Exported() {
+		return nil
+	}
+	if _, _, isInt := typeRange(p.Type()); !isInt {
+		return nil
+	}
+	if rc.busyFn == nil {
+		rc.busyFn = map[*ssa.Function]bool{}
+	}
+	if rc.busyFn[f] {
+		return nil
+	}
+	idx := -1
+	for i, q := range f.Params {
+		if q == p {
+			idx = i
+		}
+	}
+	if idx < 0 {
+		return nil
+	}
+	rc.busyFn[f] = true
+	defer delete(rc.busyFn, f)
+	var res *ival
+	for _, g := range rangeWorld.Funcs {
+		for _, h := range withAnon(g) {
+			for _, b := range h.Blocks {
+				for _, in := range b.Instrs {
+					// any use of f as a value defeats the enumeration
+					for _, op := range in.Operands(nil) {
+						if *op == ssa.Value(f) {
+							if ci, ok := in.(ssa.CallInstruction); !ok || ci.Common().Value != ssa.Value(f) {
+								return nil
+							}
+						}
+					}
+					ci, ok := in.(ssa.CallInstruction)
+					if !ok || ci.Common().StaticCallee() != f || idx >= len(ci.Common().Args) {
+						continue
+					}
+					iv := rc.eval(ci.Common().Args[idx], b)
+					if iv == nil || iv.wrapped != "" {
+						return nil
+					}
+					if res == nil {
+						res = &ival{lo: iv.lo, hi: iv.hi}
+					} else {
+						res = &ival{lo: bmin(res.lo, iv.lo), hi: bmax(res.hi, iv.hi)}
+					}
+				}
+			}
+		}
+	}
+	return res
 }
 
 func arrayLenOf(t types.Type) (int64, bool) {
